@@ -6,8 +6,8 @@
    float64 result whenever no operation rounds or overflows, which the correspondence guard
    ensures by restricting values, fraction and margin to small dyadic rationals.
    Timestamps: AsTime = time.Unix(seconds, nanos) with its normalisation of nanos and the int64
-   offset to the internal epoch; Before; Sub with its saturation.  Durations: AsDuration with its
-   saturation; int64 subtraction wraps (wrap64).  DurationValueWithinP: float32(xd)/float32(yd) with both roundings (to nearest even at 24 bits)
+   offset to the internal epoch; Before; Sub with its saturation.  Durations: DurationValueWithin on the (seconds, nanos)
+   fields (durationsWithin); AsDuration with its saturation for DurationValueWithinP and for the two earlier kernels.  DurationValueWithinP: float32(xd)/float32(yd) with both roundings (to nearest even at 24 bits)
    computed in integers.  No proofs here. *)
 From Coq Require Import QArith Qabs Qminmax.
 From SC Require Import Base.Prelude Cmp.Cmp.
@@ -148,7 +148,8 @@ Definition as_duration (fs : list (string * cval)) : Z :=
     if secs <? 0 then min_dur else if 0 <? secs then max_dur else d'
   else d'.
 
-(* [wrap_v0]: the pinned commit subtracted in int64 *)
+(* the kernels of DurationValueWithin before /repo's (seconds, nanos) repair: both went through AsDuration.
+   [wrap_v0]: the pinned commit subtracted in int64; otherwise absDiff (exact on the two SATURATED values) *)
 Definition dur_close_gen (wrap_v0 : bool) (d xd yd : Z) : bool :=
   if wrap_v0 then
     if xd <? yd then wrap64 (yd - xd) <=? d else wrap64 (xd - yd) <=? d
@@ -156,8 +157,43 @@ Definition dur_close_gen (wrap_v0 : bool) (d xd yd : Z) : bool :=
 
 Definition duration_within_gen (wrap_v0 : bool) (d : Z) : vcmp := fun x y =>
   wkt_cases dur_full x y (fun fx fy => dur_close_gen wrap_v0 d (as_duration fx) (as_duration fy)).
-Definition duration_within := duration_within_gen false.
-Definition duration_within_v0 := duration_within_gen true.
+Definition duration_within_v1 := duration_within_gen false.   (* AsDuration, saturating beyond +-292 years *)
+Definition duration_within_v0 := duration_within_gen true.    (* AsDuration and a wrapping difference *)
+
+(* durationsWithin (time.go), the current kernel: |x - y| <= d computed on the seconds and nanos fields.
+   [dur_sn_ordered]: after the swap (xs >= ys).  Every operation is written on Z; [dur_sn_ordered_go] is the
+   same function with each Go operation reduced as Go reduces it (uint64 conversions and arithmetic mod
+   2^64, the int64 subtraction of the nanos wrapped): ToleranceProofs.dur_sn_no_wrap proves them equal for
+   int64 seconds, int32 nanos and 0 <= d <= MaxInt64, i.e. no operation of the code wraps. *)
+Definition max_dur_seconds : Z := 9223372041.          (* math.MaxInt64/uint64(time.Second) + 5 *)
+Definition dur_sn_ordered (d xs xn ys yn : Z) : bool :=
+  let ds := xs - ys in
+  if max_dur_seconds <? ds then false
+  else
+    let ns := ds * giga in
+    let dn := xn - yn in
+    if 0 <=? dn then ns + dn <=? d
+    else if - dn <=? ns then ns - - dn <=? d
+    else - dn - ns <=? d.
+Definition dur_sn_close (d xs xn ys yn : Z) : bool :=
+  if xs <? ys then dur_sn_ordered d ys yn xs xn else dur_sn_ordered d xs xn ys yn.
+
+Definition wrapu64 (z : Z) : Z := z mod 18446744073709551616.
+Definition dur_sn_ordered_go (d xs xn ys yn : Z) : bool :=
+  let ds := wrapu64 (wrapu64 xs - wrapu64 ys) in
+  if max_dur_seconds <? ds then false
+  else
+    let ns := wrapu64 (ds * giga) in
+    let dn := wrap64 (xn - yn) in
+    if 0 <=? dn then wrapu64 (ns + wrapu64 dn) <=? wrapu64 d
+    else if wrapu64 (wrap64 (- dn)) <=? ns then wrapu64 (ns - wrapu64 (wrap64 (- dn))) <=? wrapu64 d
+    else wrapu64 (wrapu64 (wrap64 (- dn)) - ns) <=? wrapu64 d.
+Definition dur_sn_close_go (d xs xn ys yn : Z) : bool :=
+  if xs <? ys then dur_sn_ordered_go d ys yn xs xn else dur_sn_ordered_go d xs xn ys yn.
+
+Definition dur_sn_kernel (d : Z) (fx fy : list (string * cval)) : bool :=
+  (0 <=? d) && dur_sn_close d (get_int "seconds" fx) (get_int "nanos" fx) (get_int "seconds" fy) (get_int "nanos" fy).
+Definition duration_within (d : Z) : vcmp := fun x y => wkt_cases dur_full x y (dur_sn_kernel d).
 
 (* ---------- float32 arithmetic of DurationValueWithinP, in integers ---------- *)
 (* float32(z) for an int64 z: round to nearest even at 24 significant bits (never overflows, never
